@@ -35,9 +35,14 @@ func VerifCheckRequest(r *VRequest, accept string) {
 
 // VerifC04URL: requests for URLs with hostile bytes.
 func VerifC04URL() {
+	// whatever status the server answers with, the client sends one request
+	d1, d2, d3 := verifrt.Byte("status"), verifrt.Byte("status"), verifrt.Byte("status")
+	verifrt.Assume(verifrt.All(verifrt.InSet(d1, "12345"), d2 >= '0', d2 <= '9', d3 >= '0', d3 <= '9'))
 	w := NewWorld()
-	w.Routes[VHostA+"/"] = NewResp("HTTP/1.0 404 Not Found\r\n\r\n")
-	w.Routes[VHostB+"/"] = NewResp("HTTP/1.0 404 Not Found\r\n\r\n")
+	answer := "HTTP/1.0 " + string([]byte{d1, d2, d3}) + " Whatever\r\nContent-Type: application/activity+json\r\n\r\n{}"
+	w.Routes[VHostA+"/"] = NewResp(answer)
+	w.Routes[VHostB+"/x?q=1"] = NewResp(answer)
+	w.Routes[VHostA+"/x"] = NewResp(answer)
 	VerifUseWorld(w, 2)
 	shape := verifrt.Choice("prefix", 4)
 	max := verifrt.Param("bytes", 2)
